@@ -140,11 +140,17 @@ pub fn generate(tier: Tier, rng: &mut Rng) -> Vec<Case> {
         let mut spec = CtxSpec::default_ctx();
         spec.vars = vec![("x".into(), Value::Int(a))];
         out.extend(src_case(&spec, "-x".to_string(), vec!["neg", "variable"]));
+        // nested and parenthesised negations: each one is a checked operation of its own
+        for src in ["-(-x)", "-(-(x))", "-((-x))", "-(-x) + 1", "-(-(x - 1))", "--x", "-(--x)", "0 - (-x)", "-(x * -1)", "-(-(-x))"] {
+            out.extend(src_case(&spec, src.to_string(), vec!["neg", "nested"]));
+        }
     }
     for &a in ub.iter().take(6) {
         let mut spec = CtxSpec::default_ctx();
         spec.vars = vec![("x".into(), Value::UInt(a))];
         out.extend(src_case(&spec, "-x".to_string(), vec!["neg", "uint"]));
+        out.extend(src_case(&spec, "-(-x)".to_string(), vec!["neg", "uint", "nested"]));
+        out.extend(src_case(&spec, "--x".to_string(), vec!["neg", "uint", "nested"]));
     }
     // mixed numeric kinds are errors, never coercions
     let mixed = ["(int 1)", "(uint 1)", "(dbl 3ff0000000000000)", "(int 0)", "(uint 0)", "(dbl 0000000000000000)", "(int -1)", "(uint 18446744073709551615)", "(dbl 7ff8000000000000)"];
